@@ -133,6 +133,7 @@ class AsyncProtocol(Protocol, EventManager[PhysicalDevice]):
     _network: NetworkInfo
     _queues: Queues
     _entry_lock: asyncio.Lock
+    _consumers: list[asyncio.Task]
 
     def __init__(
         self,
@@ -149,6 +150,7 @@ class AsyncProtocol(Protocol, EventManager[PhysicalDevice]):
         )
         self._queues = Queues(read=asyncio.Queue(), write=asyncio.Queue())
         self._entry_lock = asyncio.Lock()
+        self._consumers = []
 
     def connection_established(
         self, reader: asyncio.StreamReader, writer: asyncio.StreamWriter
@@ -161,10 +163,15 @@ class AsyncProtocol(Protocol, EventManager[PhysicalDevice]):
             self.frame_producer(self._queues, reader=self.reader, writer=self.writer),
             name="frame_producer_task",
         )
-        for consumer in range(self.consumers_count):
-            self.create_task(
-                self.frame_consumer(self._queues.read),
-                name=f"frame_consumer_task ({consumer})",
+        # Consumers from the previous connection are still waiting on the read
+        # queue and will carry on; only replace the ones that have finished.
+        self._consumers = [task for task in self._consumers if not task.done()]
+        for consumer in range(len(self._consumers), self.consumers_count):
+            self._consumers.append(
+                self.create_task(
+                    self.frame_consumer(self._queues.read),
+                    name=f"frame_consumer_task ({consumer})",
+                )
             )
 
         for device in self.data.values():
